@@ -23,12 +23,12 @@ PROPERTY = "C20"
 RULE = ("Hypothesis draws a configuration whose out-state computation draws no random numbers (shipped wirings with the "
         "pair handler replaced by the invertible TwoLeafUnitEventHandler: Coulomb-atom wiring with inverse-power "
         "potentials, N=2..6; dipole atom-factor wiring; the shipped single hard-disk dipole), a seed, the number of cores "
-        "2..6, an end time and a per-handler table of answer delays (0-6 ms). Two subprocesses run the single-process and "
+        "2..6, an end time, a per-handler table of answer delays (0-6 ms) and an arrival policy (natural, or the harness hands the mediator one ready answer at a time: uniformly chosen, pre-computed out-states first, or out-states last). Two subprocesses run the single-process and "
         "the multi-process mediator with the same per-handler random streams. Oracle: identical sequences of (handler "
         "index, event time as float.hex, digest of the global state after the commit) and of written samples; after "
         "post_run no worker process is left; no deadlock. Non-trivial: a run with >= 40 commits in which the order "
         "of arriving candidate times differs from the single-process order in >= 1 leg; distinct by all drawn arguments.")
-ASSUMPTIONS = ["the harness does not own the OS scheduler: explored schedules are those induced by the drawn delays and "
+ASSUMPTIONS = ["the harness does not own the OS scheduler: explored schedules are those induced by the drawn delays, the arrival policy (which answer the mediator sees first among the ready ones) and "
                "core counts; the achieved arrival order is recorded (pushes) and reported",
                "per-handler streams are defined by the harness (seeded inside each forked worker on first use; "
                "setstate/getstate bracketing in the single-process run)",
@@ -75,6 +75,9 @@ def mp_case(draw):
     rows = draw(st.integers(1, 5))
     c["delays"] = [[draw(st.sampled_from([0.0, 0.0, 0.0005, 0.001, 0.003])) for _ in range(draw(st.integers(1, 4)))]
                    for _ in range(rows)]
+    # order in which the mediator sees the workers' answers (see vlib/mp_worker.py)
+    c["arrival"] = {"policy": draw(st.sampled_from(["natural", "one-random", "one-random", "out-first", "out-last"])),
+                    "seed": draw(st.integers(0, 2 ** 31))}
     return c
 
 
@@ -126,7 +129,8 @@ def run_worker(mode, ini, c, outdir, scratch):
     here = os.path.dirname(os.path.dirname(os.path.dirname(os.path.abspath(__file__))))
     env["PYTHONPATH"] = here + os.pathsep + os.path.join(here, ".deps")
     p = subprocess.Popen([sys.executable, "-m", "vlib.mp_worker", mode, ini, str(c["seed"]), outdir, str(c["cores"]),
-                          json.dumps(c["delays"] if mode == "multi" else [])], env=env, stdout=subprocess.PIPE,
+                          json.dumps({"tables": c["delays"], "arrival": c.get("arrival", {"policy": "natural", "seed": 0})}
+                                     if mode == "multi" else [])], env=env, stdout=subprocess.PIPE,
                          stderr=subprocess.PIPE, text=True, cwd=here, start_new_session=True)
     return p
 
@@ -203,7 +207,8 @@ def body(rec, c):
                      % (M["children_after"], M["alive_after"]), c)
         reordered = S["pushes"] != M["pushes"]
         nt = len(M["commits"]) >= 40 and reordered
-        rec.case("%s/cores%d%s" % (c["family"], c["cores"], "/reordered" if reordered else "/same-order"),
+        rec.case("%s/cores%d/%s%s" % (c["family"], c["cores"], c.get("arrival", {}).get("policy", "natural"),
+                                      "/reordered" if reordered else "/same-order"),
                  tuple(sorted((k, repr(v)) for k, v in c.items())), nt,
                  {"case": c, "commits": len(M["commits"]), "samples": len(M["writes"]), "workers": len(M["pids"]),
                   "arrival_order_differs": reordered})
